@@ -31,7 +31,7 @@ Proof.
   induction 1 as [|c l Hc Hl IH]; intros iend send kids anims pf nst e; cbn [children_loop].
   - discriminate.
   - destruct (ekind_eqb k KRegion && is_style_elem c); [apply IH|].
-    destruct (negb par && match send with None => true | Some _ => false end) eqn:Ebr; [discriminate|].
+    destruct (negb par && match send with None => true | Some _ => false end) eqn:Ebr; [apply IH|].
     destruct (ekind_eqb k KSet) eqn:Eks; [discriminate|].
     destruct (process ev (mkPctx par send pr lg _) c) as [e'| |r] eqn:Ep.
     + exfalso. eapply Hc; [|exact Ep]. unfold implicit_begin. cbn [pc_par pc_seq_end].
